@@ -68,6 +68,34 @@ theorem parser_calls_are_modelled :
     subset (Facts.C37.htmlCalls ++ Facts.C37.mdCalls) (modelled ++ readOnly) = true ∧
     Facts.C37.htmlCallsWriteByteASCII = true ∧ Facts.C37.mdCallsWriteByteASCII = true := by decide
 
+/-- The parser's own control logic (stack of open tags, name check, "no empty entities",
+`code` inside `pre`, final `ShrinkPreCode`), modelled for documents without attributes over the
+token stream of the real tokenizer: whenever it succeeds, every entity lies within the text. -/
+theorem html_result_within (toks : List C37H.HTok) (r : List Char × List Ent)
+    (h : C37H.htmlResult toks = some r) :
+    ∀ e ∈ r.2, 0 ≤ e.off ∧ 0 ≤ e.len ∧ e.off + e.len ≤ (u16len r.1 : Int) := by
+  unfold C37H.htmlResult at h
+  split at h
+  · cases h
+  · rename_i p hp
+    cases h
+    exact complete_within_of_inv _ (inv_step (C37H.parseToks_inv toks {} p inv_init hp) .shrink)
+
+/-- The tag → formatter table of `htmlParser.startTag`, regenerated from the source, is the Bot API
+table (https://core.telegram.org/bots/api#html-style); the remaining tags have attribute logic. -/
+theorem tag_table_spec :
+    Facts.C37.simpleTags =
+      [("b", "Bold"), ("strong", "Bold"), ("i", "Italic"), ("em", "Italic"), ("u", "Underline"), ("ins", "Underline"),
+       ("s", "Strike"), ("strike", "Strike"), ("del", "Strike"), ("tg-spoiler", "Spoiler")] ∧
+    Facts.C37.complexTags = ["a", "code", "pre", "span", "tg-emoji", "blockquote", "tg-time"] := by decide
+
+/-- Non-vacuity of the parser model: `<pre><code>x</code></pre><b>y  </b>` and an error. -/
+example :
+    C37H.htmlResult [.start "pre", .start "code", .text ['x'], .stop "code", .stop "pre", .start "b", .text ['y', ' ', ' '], .stop "b"]
+      = some (['x', 'y'], [{ off := 0, len := 1, kind := 4, cs := 0, ce := 1 }, { off := 0, len := 1, kind := 5, cs := 0, ce := 1 },
+                           { off := 1, len := 1, kind := 0, cs := 1, ce := 4 }]) ∧
+    C37H.htmlResult [.start "b", .text ['x'], .stop "i"] = none := by decide
+
 /-- `unescapeEntity` (Telegram's character-reference rewriting, every index expression modelled as
 a checked read): for any slice starting with `&` it never indexes out of range, consumes between 1
 and `len(s)` bytes, and writes at most as many bytes as it consumes — so the in-place writes
